@@ -82,7 +82,7 @@ structure MInv (cfg : Cfg) (ms : List Meth) (e : Option Nat) (mm : MMap) : Prop 
 /-- what `table[ck]` returns, as a function of the registered entries only -/
 def MMap.pure (cfg : Cfg) (ms : List Meth) (e : Option Nat) : CKey Key → Res Entry (List Nat)
   | (none, []) => match e with | some id => .ok (.meth id) | none => .noMethod
-  | (some _, []) => match e with | some _ => .keyError | none => .noMethod
+  | (some _, []) => .noMethod
   | (c, k) => pureLookup (plan cfg ms) (c, k)
 
 theorem MMap.pure_cons (cfg : Cfg) (ms : List Meth) (e : Option Nat) (c : Option Code) (a : Slot × Ty) (k : Key) :
@@ -259,13 +259,18 @@ theorem runEntry_dep (cfg : Cfg) (f : Nat) (fn : Fn) (hs : List Nat) (nx : Entry
       | .fallthrough =>
         (match nx with
          | .noNext => (fn, .noMethod, [], 0)
+         | .ambNext ids => (fn, .ambiguous ids, [], 0)
          | e' => runEntry cfg f fn e' x d)
       | .ambiguous => (fn, .ambiguous hs, [], 0)
       | .raised => (fn, .raised, [], 0) := by
-  cases nx <;> rw [runEntry] <;> first | rfl | (intro h; cases h)
+  cases nx <;> rw [runEntry] <;> first | rfl | (intros; contradiction)
 
 theorem runEntry_noNext (cfg : Cfg) (f : Nat) (fn : Fn) (x : Dispatch) (d : Nat) :
     runEntry cfg (f + 1) fn .noNext x d = (fn, .noMethod, [], 0) := by
+  rw [runEntry]
+
+theorem runEntry_ambNext (cfg : Cfg) (f : Nat) (fn : Fn) (ids : List Nat) (x : Dispatch) (d : Nat) :
+    runEntry cfg (f + 1) fn (.ambNext ids) x d = (fn, .ambiguous ids, [], 0) := by
   rw [runEntry]
 
 theorem runEntry_meth (cfg : Cfg) (f : Nat) (fn : Fn) (id : Nat) (x : Dispatch) (depth : Nat) :
@@ -410,12 +415,16 @@ theorem runEntry_rel (cfg : Cfg) (ds : List (Def × Int)) (ana : Analysis) (e0 :
       | fallthrough =>
         cases nx with
         | noNext => exact RunRel.triv cfg ds ana e0 fn1 fn2 h1 h2 _ _
+        | ambNext ids => exact RunRel.triv cfg ds ana e0 fn1 fn2 h1 h2 _ _
         | meth id => exact ih fn1 fn2 (.meth id) x d h1 h2
         | dep hs' nx' => exact ih fn1 fn2 (.dep hs' nx') x d h1 h2
       | ambiguous => exact RunRel.triv cfg ds ana e0 fn1 fn2 h1 h2 _ _
       | raised => exact RunRel.triv cfg ds ana e0 fn1 fn2 h1 h2 _ _
     | noNext =>
       rw [runEntry_noNext, runEntry_noNext]
+      exact RunRel.triv cfg ds ana e0 fn1 fn2 h1 h2 _ _
+    | ambNext ids =>
+      rw [runEntry_ambNext, runEntry_ambNext]
       exact RunRel.triv cfg ds ana e0 fn1 fn2 h1 h2 _ _
     | meth id =>
       rw [runEntry_meth, runEntry_meth, findDef_eq fn1 ds h1.defns, findDef_eq fn2 ds h2.defns, h1.ana, h2.ana]
